@@ -35,6 +35,8 @@ type c16Case struct {
 	Kind     string    `json:"kind"`
 	Children int       `json:"children"`
 	Steps    []c16Step `json:"steps"`
+	// MMap: every actor opens with the memory-mapped back-end (open files stay pre-extended until Close has shrunk them)
+	MMap bool `json:"mmap,omitempty"`
 }
 
 // ---- child side
@@ -58,6 +60,9 @@ func init() {
 				o := kvh.DefaultOpt()
 				if len(cmd) > 1 && cmd[1] == "badio" {
 					o.IO = 9
+				}
+				if len(cmd) > 1 && cmd[1] == "mmap" {
+					o.IO = 1
 				}
 				d, err := c16Open(o, dir)
 				if err == nil {
@@ -159,6 +164,7 @@ type c16World struct {
 	stale    [2]*kv.DB // handles that were closed before
 	staleKid map[int]bool
 	holder   int    // -1 none
+	mmap     bool   // every actor opens with the memory-mapped back-end
 	damaged  string // pending damage kind ("" none)
 	rejected int
 	reopened int
@@ -176,8 +182,17 @@ func dirSnapshot(dir string) string {
 			continue
 		}
 		for _, e := range ents {
-			b, _ := os.ReadFile(filepath.Join(d, e.Name()))
-			parts = append(parts, fmt.Sprintf("%s/%s:%d:%x", filepath.Base(d), e.Name(), len(b), kvh.Hash64(b)))
+			// a holder using MMap keeps its files extended to 512 MiB (sparse): size plus the first MiB stand for them
+			var b []byte
+			size := int64(-1)
+			if fd, err := os.Open(filepath.Join(d, e.Name())); err == nil {
+				if fi, err := fd.Stat(); err == nil {
+					size = fi.Size()
+				}
+				b, _ = io.ReadAll(io.LimitReader(fd, 1<<20))
+				fd.Close()
+			}
+			parts = append(parts, fmt.Sprintf("%s/%s:%d:%x", filepath.Base(d), e.Name(), size, kvh.Hash64(b)))
 		}
 	}
 	sort.Strings(parts)
@@ -202,6 +217,9 @@ func (w *c16World) lockFree() *kvh.Fail {
 func (w *c16World) open(actor int, variant string) (string, *kvh.Fail) {
 	if actor < 2 {
 		o := kvh.DefaultOpt()
+		if w.mmap {
+			o.IO = 1
+		}
 		if variant == "badio" {
 			o.IO = 9
 		}
@@ -217,6 +235,9 @@ func (w *c16World) open(actor int, variant string) (string, *kvh.Fail) {
 	}
 	c := w.children[actor-2]
 	cmd := "open"
+	if w.mmap {
+		cmd = "open mmap"
+	}
 	if variant == "badio" {
 		cmd = "open badio"
 	}
@@ -407,6 +428,13 @@ func (w *c16World) step(s c16Step) *kvh.Fail {
 			return nil
 		}
 		c := w.children[a-2]
+		if w.mmap && w.holder == a {
+			// a holder that dies without Close leaves its MMap files pre-extended, and the next Open fails on them:
+			// that is the recorded finding mmap-crash-image-open (C03), not a locking question - the holder closes first
+			_ = c.send("close")
+			_, _ = c.recv()
+			w.labels["excluded-exit-without-close-under-mmap"]++
+		}
 		_ = c.send("exit")
 		_, _ = c.recv()
 		_ = c.cmd.Wait()
@@ -603,7 +631,10 @@ func (w *c16World) step(s c16Step) *kvh.Fail {
 func runC16(c *c16Case) (w *c16World, fail *kvh.Fail) {
 	e := kvh.GetEnv()
 	base := e.NewDir("c16")
-	w = &c16World{dir: filepath.Join(base, "db"), holder: -1, labels: map[string]int{}}
+	w = &c16World{dir: filepath.Join(base, "db"), holder: -1, labels: map[string]int{}, mmap: c.MMap}
+	if c.MMap {
+		w.labels["actors-use-mmap"]++
+	}
 	exe, err := os.Executable()
 	if err != nil {
 		return w, &kvh.Fail{Sig: "harness", Msg: err.Error()}
@@ -669,7 +700,7 @@ func TestC16(t *testing.T) {
 		"child processes are re-executions of the test binary talking a line protocol on stdin/stdout; a child that does not answer within 120 s makes the run inconclusive, not a violation")
 	defer finishProperty(st)
 	checkCases(t, st, func(t *rapid.T) {
-		c := &c16Case{Property: "C16", Kind: "c16", Children: 2 + kvh.U(t, 2, "children")}
+		c := &c16Case{Property: "C16", Kind: "c16", Children: 2 + kvh.U(t, 2, "children"), MMap: kvh.Pct(t, 35, "mmap")}
 		n := 4 + kvh.U(t, 17, "nsteps")
 		for i := 0; i < n; i++ {
 			s := c16Step{Actor: kvh.U(t, 5, "actor")}
